@@ -37,7 +37,43 @@ Inductive cop :=
 | CAdd (c : cmd)
 | CProposed (b : list cmd)
 | CGet        (* context done exactly when the select would block *)
-| CGetC.      (* context already cancelled: either ready branch of the select may be taken *)
+| CGetC       (* context already cancelled: either ready branch of the select may be taken *)
+| CContains (b : list cmd) (obs : bool)     (* containsDuplicate(b) returned obs *)
+(* k Gets were started and all of them blocked; then x (an Add or a Proposed) ran while they waited;
+   racing = their context was cancelled together with x (before / after it, without waiting for the
+   Gets to react), otherwise only after everything had come to rest.  obs = the batches the k Gets
+   returned, in any order. *)
+| CWake (k : nat) (racing : bool) (x : cop) (obs : list (list cmd)).
+
+Fixpoint remove1 (b : list cmd) (l : list (list cmd)) : option (list (list cmd)) :=
+  match l with
+  | [] => None
+  | x :: r => if cmds_eqb b x then Some r
+              else match remove1 b r with Some r' => Some (x :: r') | None => None end
+  end.
+Fixpoint perm_eqb (a b : list (list cmd)) : bool :=
+  match a with
+  | [] => match b with [] => true | _ => false end
+  | x :: a' => match remove1 x b with Some b' => perm_eqb a' b' | None => false end
+  end.
+
+Definition simple_step (st : state) (x : cop) : option state :=
+  match x with
+  | CAdd c => Some (fst (step st (OAdd c)))
+  | CProposed b => Some (fst (step st (OProposed b)))
+  | _ => None
+  end.
+
+Definition wake_ok (st : state) (k : nat) (racing : bool) (x : cop) (obs : list (list cmd)) (st' : state) : bool :=
+  let '(st0, pre) := gets k st in
+  match pre, simple_step st0 x with
+  | [], Some st1 =>
+      let ok (m : state * list (list cmd)) := state_eqb (fst m) st' && perm_eqb (snd m) obs in
+      if racing
+      then existsb (fun j => ok (gets j st1) && Nat.eqb (length (snd (gets j st1))) j) (seq 0 (S k))
+      else ok (gets k st1)
+  | _, _ => false   (* the model says one of the k Gets would not have blocked *)
+  end.
 
 Definition cstep_ok (st : state) (o : cop) (obs : state * get_res) : bool :=
   match o with
@@ -45,6 +81,9 @@ Definition cstep_ok (st : state) (o : cop) (obs : state * get_res) : bool :=
   | CProposed b => out_eqb (step st (OProposed b)) obs
   | CGet => out_eqb (step st OGet) obs
   | CGetC => existsb (fun m => out_eqb m obs) (getc_outcomes st)
+  | CContains b r => out_eqb (st, GContinue) obs && Bool.eqb (contains_dup st b) r
+  | CWake k racing x batches =>
+      res_eqb (snd obs) GContinue && wake_ok st k racing x batches (fst obs)
   end.
 
 (* (a) one transition *)
@@ -68,3 +107,4 @@ Definition S_ := mkState.
 Definition B_ := GBatch.
 Definition K_ := GBlocked.
 Definition C_ := GContinue.
+Definition W_ := CWake.
